@@ -15,7 +15,7 @@ import argparse, json, os, random, re, subprocess, sys, time, hashlib
 from concurrent.futures import ThreadPoolExecutor
 
 HERE = os.path.dirname(os.path.abspath(__file__)); VERIF = os.path.dirname(HERE)
-DRIVER_COPY = os.path.join(VERIF, ".build", "mutation_driver")
+DRIVER_COPY = os.path.join(VERIF, ".build", "mutation_driver_%d" % os.getpid())
 INC = "/repo/include/pops"
 
 FILE_PROPS = {
